@@ -660,9 +660,38 @@ def generate(repo):
     def psd_same_window():
         a = _psd_analysis(get_def(ifm, 'psd'))
         if a['Ws'] is None:
-            return None
+            # no sum of squares in the normalisation: recognisably wrong if the window enters it some other way
+            # (e.g. `window.sum()`), unknown otherwise
+            return False if _norm(a['Wt']) in _norm(a['power']) else None
         return _norm(a['Wt']) == _norm(a['Ws'])
     g.fact('psdWindowSameInTransformAndS2', 'prysm/interferogram.py:psd', psd_same_window)
+
+    def psd_sq_modulus():
+        """the returned power is built on |spectrum|^2 (not |spectrum|, not the squared real part)"""
+        fn = get_def(ifm, 'psd')
+        try:
+            _psd_analysis(fn)
+            return True
+        except Untranslatable:
+            pass
+        ssa = _SSA()
+        ssa.run(fn.body)
+        if not (isinstance(ssa.ret, ast.Tuple) and len(ssa.ret.elts) == 3):
+            return None
+        pw = ssa.ret.elts[2]
+        hit = []
+
+        def has_ft(x):
+            return any(isinstance(n, ast.Call) and _callee(n) == 'fft2' for n in ast.walk(x))
+        for n in ast.walk(pw):
+            if isinstance(n, ast.Call) and _norm(n.func) == 'abs' and len(n.args) == 1 and has_ft(n.args[0]):
+                hit.append('abs')
+            if isinstance(n, ast.Attribute) and n.attr in ('real', 'imag') and has_ft(n.value):
+                hit.append(n.attr)
+        if hit and not any(_power_of(n) is not None for n in ast.walk(pw) if isinstance(n, ast.expr)):
+            return False          # the modulus / one component of the spectrum is there, but not as a squared modulus
+        return None
+    g.fact('psdPowerIsSquaredModulus', 'prysm/interferogram.py:psd', psd_sq_modulus)
 
     def psd_window_source():
         a = _psd_analysis(get_def(ifm, 'psd'))
@@ -769,9 +798,6 @@ def generate(repo):
             raise Untranslatable('integration results are not plain assignments')
         if calls[0]['arg'] != 'work' or any(calls[j]['arg'] != tgt[j - 1] for j in range(1, k)):
             raise Untranslatable('integration calls are not chained work -> reduced -> reduced')
-        (ret,) = find_returns(fn)
-        if ast.unparse(ret) not in (f'np.sqrt({tgt[-1]})',):
-            raise Untranslatable(f'returns {ast.unparse(ret)[:40]}')
 
         def table(key):
             arms = ''.join(f'  | {j} => {calls[j][key]}\n' for j in range(k))
@@ -787,6 +813,34 @@ def generate(repo):
            'def brmsIntAxis : Nat → Nat\n  | _ => 0\n'
            'def brmsStepAxis : Nat → Nat\n  | 0 => 0\n  | 1 => 1\n  | _ => 0\n'
            'def brmsStepLag : Nat → Int\n  | 0 => -1\n  | 1 => -1\n  | _ => 0\n')
+
+    def brms_returns_sqrt():
+        """bandlimited_rms returns the square ROOT of the (last) integral; and it integrates a COPY of the caller's PSD"""
+        fn = get_def(ifm, 'bandlimited_rms')
+        tgt = [ast.unparse(st.targets[0]) for st in _stmts(fn)
+               if isinstance(st, ast.Assign) and isinstance(st.value, ast.Call) and any(kw.arg == 'dx' for kw in st.value.keywords)]
+        rets = find_returns(fn)
+        if not tgt or len(rets) != 1:
+            return None
+        t = ast.unparse(rets[0]).replace(' ', '')
+        X = tgt[-1]
+        if t in (f'np.sqrt({X})', f'{X}**0.5', f'math.sqrt({X})', f'np.sqrt(abs({X}))', f'float(np.sqrt({X}))'):
+            ok = True
+        elif t in (X, f'float({X})', f'{X}**2', f'np.sqrt({X})**2'):
+            return False
+        else:
+            return None
+        w = find_assigns(fn, 'work')
+        if len(w) != 1:
+            return None
+        wt = ast.unparse(w[0]).replace(' ', '')
+        if wt in ('psd.copy()', 'np.copy(psd)', 'np.array(psd)', 'np.array(psd,copy=True)', 'psd*1', 'psd+0', 'psd.astype(float)'):
+            return ok
+        if wt == 'psd' and any(isinstance(st, ast.Assign) and isinstance(st.targets[0], ast.Subscript)
+                                and ast.unparse(st.targets[0].value) == 'work' for st in _stmts(fn)):
+            return False          # masked writes go into the caller's array
+        return None
+    g.fact('brmsReturnsSqrtOfIntegralOfACopy', 'prysm/interferogram.py:bandlimited_rms', brms_returns_sqrt)
 
     def brms_centre():
         fn = get_def(ifm, 'bandlimited_rms')
@@ -954,6 +1008,9 @@ def generate(repo):
         mask_forms = ('z[mask==0]=np.nan', 'z[mask==0]=nan', 'z[mask==False]=np.nan', 'z[~mask.astype(bool)]=np.nan',
                       'z[np.logical_not(mask)]=np.nan', 'z[mask==0]=float("nan")', "z[mask==0]=float('nan')")
         mask = [s_ for s_ in st if isinstance(s_, ast.Assign) and ast.unparse(s_).replace(' ', '') in mask_forms]
+        if any(isinstance(s_, ast.Assign) and ast.unparse(s_).replace(' ', '') in
+               ('z[mask!=0]=np.nan', 'z[mask==1]=np.nan', 'z[mask]=np.nan', 'z[mask==True]=np.nan', 'z[mask>0]=np.nan') for s_ in st):
+            return False          # the samples INSIDE the mask are invalidated
         aug = [s_ for s_ in st if isinstance(s_, ast.AugAssign) and ast.unparse(s_.target) == 'z'] + \
               [s_ for s_ in st if isinstance(s_, ast.Assign) and ast.unparse(s_.targets[0]) == 'z'
                and isinstance(s_.value, ast.BinOp) and isinstance(s_.value.op, (ast.Mult, ast.Div)) and 'z' in (ast.unparse(s_.value.left), ast.unparse(s_.value.right))]
@@ -1081,8 +1138,8 @@ def generate(repo):
         got = {k: _norm(v) for k, v in bnd.items()}
         if got == want:
             return True
-        if all(v in set(want.values()) | {f'{P}.x', f'{P}.y', f'{P}.t'} for v in got.values()):
-            return False
+        if all(v in set(want.values()) | {f'{P}.x', f'{P}.y', f'{P}.t'} or isinstance(bnd[k], ast.Constant) for k, v in got.items()):
+            return False          # same ingredients wired differently, or an edge replaced by a constant
         return None
     g.fact('interferogramBrmsPassesPsdRAndData', 'prysm/interferogram.py:Interferogram.bandlimited_rms', ifg_brms)
 
@@ -1100,8 +1157,8 @@ def generate(repo):
         got = {k: _norm(v) for k, v in bnd.items()}
         if any(x != 'psd_fcn_kwargs' for x in star):
             return None                                                    # arguments travel in a dict we do not follow
-        if any(k in want and v in want and v != k for k, v in got.items()):
-            return False                                                   # two arguments crossed
+        if any(k in want and (v in want or isinstance(bnd[k], ast.Constant)) and v != k for k, v in got.items()):
+            return False                                                   # two arguments crossed / replaced by a constant
         if set(want) - set(got) or not star:
             return False                                                   # an argument / the model's kwargs not passed on
         if all(got[k] == k for k in want):
